@@ -5,6 +5,10 @@
   Every theorem about histories quantifies over ALL operation sequences from the empty store.
 -/
 import EchoVerif.Lemmas.ExtAct
+import EchoVerif.Lemmas.ExtActCrash
+import EchoVerif.Lemmas.ExtActIndex
+import EchoVerif.Lemmas.ExtActWal
+import EchoVerif.Props.C10
 
 namespace EchoVerif.C17
 open EchoVerif EchoVerif.ExtAct
@@ -101,6 +105,171 @@ theorem grant_after_commit (s s' : Sys) :
         cases h1
         exact ⟨_, _, h2, rfl, rfl⟩
       · rw [h] at h1; cases h1
+
+/-- the lifecycle step an answer carries, with the commit it names -/
+def answered : Out → Option (Nat × TxBody)
+  | .recorded r c => some (c, .request r)
+  | .grant _ cl c => some (c, .claim cl)
+  | .admitted st c => some (c, .settlement st)
+  | _ => none
+
+def isTransition : Op → Bool
+  | .request _ => true
+  | .claim _ _ _ _ _ => true
+  | .settle _ _ _ _ => true
+  | _ => false
+
+theorem prefix_getElem? {α : Type} {l1 l2 : List α} (h : l1 <+: l2) {i : Nat} {x : α}
+    (hx : l1[i]? = some x) : l2[i]? = some x := by
+  obtain ⟨t, rfl⟩ := h
+  have hi : i < l1.length := by
+    cases Nat.lt_or_ge i l1.length with
+    | inl h => exact h
+    | inr h => rw [List.getElem?_eq_none h] at hx; cases hx
+  rw [List.getElem?_append_left hi]
+  exact hx
+
+/-- **grant_names_logged_step.** What the commit value in a grant MEANS, over whole histories: when
+    any of the three transitions answers with its grant, the commit it names is the position of a
+    transaction that is in the store at that moment, carries exactly that step (same request /
+    claim / settlement), and stays at that position in every later store of the run — whatever
+    happens afterwards (faults, stops, recoveries, truncations). In particular commit values in one
+    store are pairwise different, so a grant identifies one log transaction. -/
+theorem grant_names_logged_step (ops : List Op) :
+    ∀ p ∈ trace ops, isTransition p.1 = true → ∀ c body, answered p.2 = some (c, body) →
+      ∃ tx, (after ops).store.commits[c]? = some tx ∧ tx.commit = c ∧ tx.body = body := by
+  have stepf : ∀ (s : Sys) (op : Op), isTransition op = true → ∀ c body,
+      answered (step s op).2 = some (c, body) →
+      ∃ tx, (step s op).1.store.commits[c]? = some tx ∧ tx.commit = c ∧ tx.body = body := by
+    intro s op ht c body ha
+    have hga := grant_after_commit s (step s op).1
+    cases op with
+    | request r =>
+      cases hout : (recordRequest s r).2 with
+      | recorded r' c' =>
+        have heq : recordRequest s r = ((step s (.request r)).1, .recorded r' c') := by
+          rw [← hout]; rfl
+        obtain ⟨tb, ta, hc, hlen, _⟩ := hga.1 r r' c' heq
+        have : answered (step s (.request r)).2 = some (c', .request r') := by
+          show answered (recordRequest s r).2 = _
+          rw [hout]; rfl
+        rw [this] at ha
+        cases ha
+        refine ⟨⟨c, _, tb, ta⟩, ?_, rfl, rfl⟩
+        rw [hc, hlen]
+        simp
+      | grant _ _ _ =>
+        rcases recordRequest_shape s r with ⟨err, he⟩ | ⟨_, _, _, he⟩
+        · rw [he] at hout; cases hout
+        · rw [he] at hout
+          rcases commitStep_out s (.request r) (entry0 r) (fun c => { entry0 r with reqCommit := c })
+            (fun c => .recorded r c) with ⟨h1, _⟩ | ⟨h1, _⟩ <;> (rw [hout] at h1; cases h1)
+      | admitted _ _ =>
+        rcases recordRequest_shape s r with ⟨err, he⟩ | ⟨_, _, _, he⟩
+        · rw [he] at hout; cases hout
+        · rw [he] at hout
+          rcases commitStep_out s (.request r) (entry0 r) (fun c => { entry0 r with reqCommit := c })
+            (fun c => .recorded r c) with ⟨h1, _⟩ | ⟨h1, _⟩ <;> (rw [hout] at h1; cases h1)
+      | err e =>
+        have : answered (step s (.request r)).2 = none := by
+          show answered (recordRequest s r).2 = _
+          rw [hout]; rfl
+        rw [this] at ha; cases ha
+      | done =>
+        have : answered (step s (.request r)).2 = none := by
+          show answered (recordRequest s r).2 = _
+          rw [hout]; rfl
+        rw [this] at ha; cases ha
+    | claim tok a b o l =>
+      cases hout : (claimAction s tok a b o l).2 with
+      | grant r' cl c' =>
+        have heq : claimAction s tok a b o l = ((step s (.claim tok a b o l)).1, .grant r' cl c') := by
+          rw [← hout]; rfl
+        obtain ⟨tb, ta, hc, hlen, _⟩ := hga.2.1 tok a b o l r' cl c' heq
+        have : answered (step s (.claim tok a b o l)).2 = some (c', .claim cl) := by
+          show answered (claimAction s tok a b o l).2 = _
+          rw [hout]; rfl
+        rw [this] at ha
+        cases ha
+        refine ⟨⟨c, _, tb, ta⟩, ?_, rfl, rfl⟩
+        rw [hc, hlen]
+        simp
+      | recorded _ _ =>
+        rcases claimAction_shape s tok a b o l with ⟨err, he⟩ | ⟨rec, _, _, _, _, _, _, _, _, _, _, _, _, _, he⟩
+        · rw [he] at hout; cases hout
+        · rw [he] at hout
+          rcases commitStep_out s _ _ _ _ with ⟨h1, _⟩ | ⟨h1, _⟩ <;> (rw [hout] at h1; cases h1)
+      | admitted _ _ =>
+        rcases claimAction_shape s tok a b o l with ⟨err, he⟩ | ⟨rec, _, _, _, _, _, _, _, _, _, _, _, _, _, he⟩
+        · rw [he] at hout; cases hout
+        · rw [he] at hout
+          rcases commitStep_out s _ _ _ _ with ⟨h1, _⟩ | ⟨h1, _⟩ <;> (rw [hout] at h1; cases h1)
+      | err e =>
+        have : answered (step s (.claim tok a b o l)).2 = none := by
+          show answered (claimAction s tok a b o l).2 = _
+          rw [hout]; rfl
+        rw [this] at ha; cases ha
+      | done =>
+        have : answered (step s (.claim tok a b o l)).2 = none := by
+          show answered (claimAction s tok a b o l).2 = _
+          rw [hout]; rfl
+        rw [this] at ha; cases ha
+    | settle gr gc gcm k =>
+      cases hout : (admitSettlement s gr gc gcm k).2 with
+      | admitted st c' =>
+        have heq : admitSettlement s gr gc gcm k = ((step s (.settle gr gc gcm k)).1, .admitted st c') := by
+          rw [← hout]; rfl
+        obtain ⟨tb, ta, hc, hlen, _⟩ := hga.2.2 gr gc gcm k st c' heq
+        have : answered (step s (.settle gr gc gcm k)).2 = some (c', .settlement st) := by
+          show answered (admitSettlement s gr gc gcm k).2 = _
+          rw [hout]; rfl
+        rw [this] at ha
+        cases ha
+        refine ⟨⟨c, _, tb, ta⟩, ?_, rfl, rfl⟩
+        rw [hc, hlen]
+        simp
+      | recorded _ _ =>
+        rcases admitSettlement_shape s gr gc gcm k with ⟨err, he⟩ | ⟨rec, _, _, _, _, _, _, _, he⟩
+        · rw [he] at hout; cases hout
+        · rw [he] at hout
+          rcases commitStep_out s _ _ _ _ with ⟨h1, _⟩ | ⟨h1, _⟩ <;> (rw [hout] at h1; cases h1)
+      | grant _ _ _ =>
+        rcases admitSettlement_shape s gr gc gcm k with ⟨err, he⟩ | ⟨rec, _, _, _, _, _, _, _, he⟩
+        · rw [he] at hout; cases hout
+        · rw [he] at hout
+          rcases commitStep_out s _ _ _ _ with ⟨h1, _⟩ | ⟨h1, _⟩ <;> (rw [hout] at h1; cases h1)
+      | err e =>
+        have : answered (step s (.settle gr gc gcm k)).2 = none := by
+          show answered (admitSettlement s gr gc gcm k).2 = _
+          rw [hout]; rfl
+        rw [this] at ha; cases ha
+      | done =>
+        have : answered (step s (.settle gr gc gcm k)).2 = none := by
+          show answered (admitSettlement s gr gc gcm k).2 = _
+          rw [hout]; rfl
+        rw [this] at ha; cases ha
+    | retry k => cases ht
+    | recordedRequest rid => cases ht
+    | claimGrant rid => cases ht
+    | admittedSettlement rid => cases ht
+    | recover => cases ht
+    | trunc => cases ht
+    | fault k => cases ht
+  have runf : ∀ (ops : List Op) (s : Sys), ∀ p ∈ (run s ops).2, isTransition p.1 = true →
+      ∀ c body, answered p.2 = some (c, body) →
+      ∃ tx, (run s ops).1.store.commits[c]? = some tx ∧ tx.commit = c ∧ tx.body = body := by
+    intro ops
+    induction ops with
+    | nil => intro s p hp; simp [run] at hp
+    | cons op rest ih =>
+      intro s p hp ht c body ha
+      simp only [run, List.mem_cons] at hp
+      rcases hp with hp | hp
+      · subst hp
+        obtain ⟨tx, h1, h2, h3⟩ := stepf s op ht c body ha
+        exact ⟨tx, prefix_getElem? (run_commits_prefix rest (step s op).1) h1, h2, h3⟩
+      · exact ih (step s op).1 p hp ht c body ha
+  exact runf ops genesis
 
 /-- **reject_unchanged.** Any operation that answers with a typed error other than the store's own
     failure leaves store and coordinator exactly as they were. -/
@@ -293,31 +462,34 @@ theorem smt_root_entry_set {D : Type} (E : Nat → D) (N : Nat → D → D → D
     (hl : ∀ k, lookup k es = lookup k es') : build E N 0 n es = build E N 0 n es' :=
   build_congr E N n 0 es es' h h' hl
 
-/-- **index_root_eq_rebuild.** The coordinator's lifecycle-index root after any sequence of entry
-    writes is the rebuilt root over the 256-bit request-id keys. -/
-theorem index_root_eq_rebuild (es : List Entry) :
-    (es.foldl Index.put Index.empty).rootDigest =
-      build DX.empty DX.node 0 indexDepth
-        ((es.map (fun e => (keyBits indexDepth e.request.rid, leafOf e))).reverse) := by
-  have hfold : ∀ (l : List Entry) (i : Index),
-      (l.foldl Index.put i).trie =
-        applyUps DX.empty DX.node i.trie (l.map (fun e => (keyBits indexDepth e.request.rid, leafOf e))) := by
-    intro l
-    induction l with
-    | nil => intro i; rfl
-    | cons e rest ih =>
-      intro i
-      simp only [List.foldl_cons, List.map_cons, applyUps]
-      rw [ih]
-      rfl
-  have hlen : ∀ kv ∈ es.map (fun e => (keyBits indexDepth e.request.rid, leafOf e)),
-      kv.1.length = indexDepth := by
-    intro kv hkv
-    simp only [List.mem_map] at hkv
-    obtain ⟨e, _, rfl⟩ := hkv
-    simp [keyBits]
-  simp only [Index.rootDigest, hfold es Index.empty]
-  exact smt_incremental_eq_rebuild DX.empty DX.node indexDepth _ hlen
+/-- **index_root_eq_rebuild.** After ANY operation history whose request ids are 32-byte values,
+    every index `observe_external_actions` rebuilds from the durable log — hence (first corollary)
+    the live index of every usable coordinator, and the index recovered at any stop — has as root
+    digest exactly the root REBUILT FROM ITS SORTED ENTRY MAP (key = the 256 request-id bits, leaf =
+    the entry's request/claim/settlement), at the code's depth 256; and (second part) this holds
+    under EVERY digest algebra `(E, L, N)` the pre-images are evaluated in (arbitrary hash). The
+    write history, its order and overwritten leaves are irrelevant. -/
+theorem index_root_eq_rebuild (ops : List Op) (hb : OpsBounded ops) :
+    (∀ i, observe (after ops).store.commits = .ok i →
+      i.rootDigest = build DX.empty DX.node 0 indexDepth i.leaves ∧
+      ∀ {D : Type} (E : Nat → D) (L : Request → Option Claim → Option Settlement → D)
+        (N : Nat → D → D → D),
+        DX.eval E L N i.rootDigest =
+          build E N 0 indexDepth (i.entries.map (fun p =>
+            (keyBits indexDepth p.1, L p.2.request p.2.claim p.2.settlement)))) ∧
+    ((after ops).coord.ready = true →
+      (after ops).coord.index.rootDigest =
+        build DX.empty DX.node 0 indexDepth (after ops).coord.index.leaves) := by
+  have hlog : LogBounded (after ops).store.commits :=
+    run_logBounded ops genesis hb (fun tx htx => by simp [genesis, Store.empty] at htx)
+  have key : ∀ i, observe (after ops).store.commits = .ok i →
+      i.rootDigest = build DX.empty DX.node 0 indexDepth i.leaves := fun i hi =>
+    idxOK_root (observeFrom_idxOK _ _ _ hi idxOK_empty hlog)
+  refine ⟨fun i hi => ⟨key i hi, ?_⟩, fun hr => key _ ((good_after ops).2 hr).2.1⟩
+  intro D E L N
+  rw [key i hi, eval_build]
+  simp only [Index.leaves, List.map_map]
+  rfl
 
 /-! ### non-vacuity -/
 
@@ -329,27 +501,119 @@ def claimA : Claim := Claim.forRequest reqA 11 0 13 12
 def candA : Candidate :=
   { rid := 5, attempt := claimA.attempt, adapter := 11, kind := 1, schema := 4, basis := 7,
     bytes := [1, 2], digestOk := true, schemaEv := 14, extEv := 15 }
-/-- **crash_atomic_partial.** The shared commit tail of the three transitions (`commitStep`; each
-    transition is either a typed rejection or exactly one `commitStep`, see `*_shape`), taken from a
-    usable coordinator, is all-or-nothing under every store fault: if the frame append fails, or the
-    frame is stored but the commit flush fails (stop mid-transaction), then dropping the tail and
-    recovering returns the coordinator exactly as before the step; if the commit is stored but its
-    acknowledgement is lost, recovery returns exactly the coordinator of the uninterrupted step.
-    (Full statement = the same for `step` on the three transition ops; the lifting over the
-    rejection branches is not done.) -/
-theorem crash_atomic_partial (s : Sys) (body : TxBody) (e : Entry) (fin : Nat → Entry)
-    (mk : Nat → Out) (hg : Good s) (hr : s.coord.ready = true)
-    (hbody : ∀ c, applyBody s.coord.index c body = .ok (s.coord.index.put (fin c)))
-    (hleaf : ∀ c, leafOf (fin c) = leafOf e ∧ (fin c).request.rid = e.request.rid) :
+/-- **crash_atomic.** After ANY history that leaves the coordinator usable, for EVERY next operation
+    (valid or not) and a store failure at EVERY boundary of its one-frame transaction:
+    frame append fails (1), frame stored but commit flush fails = stop mid-transaction (2) — dropping
+    the uncommitted tail and recovering returns exactly the coordinator before the operation;
+    commit stored but its acknowledgement lost (3) — recovery returns exactly the coordinator of the
+    uninterrupted operation. (No fault: `recover_eq_uninterrupted`.) Whether the operation is admitted
+    never depends on the armed fault (`step_fault_shape`). -/
+theorem crash_atomic (ops : List Op) (op : Op) (hr : (after ops).coord.ready = true) :
     (∀ k, k = 1 ∨ k = 2 →
-      recover { (commitStep (withFault s k) body e fin mk).1.store with dirty := false } = .ok s.coord) ∧
-    recover (commitStep (withFault s 3) body e fin mk).1.store
-      = .ok (commitStep (withFault s 0) body e fin mk).1.coord :=
-  commitStep_crash_atomic s body e fin mk hg hr hbody hleaf
+      recover { (step (withFault (after ops) k) op).1.store with dirty := false }
+        = .ok (after ops).coord) ∧
+    recover (step (withFault (after ops) 3) op).1.store
+      = .ok (step (withFault (after ops) 0) op).1.coord :=
+  step_crash_atomic (after ops) op (good_after ops) hr
 
--- the hypotheses are met, e.g., by the request transition on the empty store
-example : ∀ c, applyBody genesis.coord.index c (.request reqA)
-    = .ok (genesis.coord.index.put { entry0 reqA with reqCommit := c }) := fun _ => rfl
+/-- **recover_log_prefix.** The committed log only grows, one transaction per operation, so EVERY
+    prefix of the final log (what survives a crash that loses a suffix) is the complete log of the
+    same run after some `j` of its operations; the store holding it recovers, and to exactly that
+    earlier coordinator whenever it was usable then. -/
+theorem recover_log_prefix (ops : List Op) (k : Nat) (hk : k ≤ (after ops).store.commits.length) :
+    ∃ j c, j ≤ ops.length ∧
+      (after (ops.take j)).store.commits = (after ops).store.commits.take k ∧
+      recoveredFrom ((after ops).store.commits.take k) = .ok c ∧
+      observe ((after ops).store.commits.take k) = .ok c.index ∧
+      ((after (ops.take j)).coord.ready = true → c = (after (ops.take j)).coord) := by
+  obtain ⟨j, hj, hlog⟩ := run_reaches_prefix ops genesis k (Nat.zero_le _) hk
+  obtain ⟨c, hc, hi, _, _⟩ := recover_any_stop (ops.take j)
+  refine ⟨j, c, hj, hlog, ?_, by rw [← hlog]; exact hi, fun hr => ?_⟩
+  · rw [← hlog]; exact hc
+  · have h2 := recover_eq_uninterrupted (ops.take j) hr
+    have hd : (after (ops.take j)).store.dirty = false := ((good_after (ops.take j)).2 hr).1
+    rw [recover_congr (st' := { (after (ops.take j)).store with dirty := false }) hd rfl, hc] at h2
+    cases h2
+    rfl
+
+/-- **crash_any_byte_cut.** Composition with the byte-level WAL model of C10/C11. Write the
+    committed transactions of ANY history with the model WAL writer (`buildLog`: per transaction
+    the frame record(s) then the commit marker; `enc` = any translation of a transaction into a
+    writer spec) and cut the segment at ANY byte `m`. For every byte-level recovery function `R`
+    with C10's prefix property on that segment: `R` returns exactly the WAL transactions of the
+    first `k` commits with the exact tail posture; those `k` commits are the complete log of the
+    same run after some `j` operations; the coordinator recovered from them exists, is the fold of
+    that log, and IS the uninterrupted run's coordinator at point `j` whenever that was usable. -/
+theorem crash_any_byte_cut {ε δ : Type} (ops : List Op) (enc : Tx → Wal.TxSpec)
+    (cfg : Wal.Cfg) (H : Wal.HashFn) (p : Wal.BuildParams) (chain : Bool) (lsn : Nat) (pf pc : Bytes)
+    (mode : Wal.Mode) (R : Bytes → Except ε (δ × Wal.Report))
+    (hR : PrefixRecovery cfg H mode R
+      (Wal.buildLog cfg H p chain lsn pf pc ((after ops).store.commits.map enc)))
+    (m : Nat)
+    (hm : m ≤ (Wal.encLog cfg H
+      (Wal.buildLog cfg H p chain lsn pf pc ((after ops).store.commits.map enc))).length) :
+    ∃ k d j c, k ≤ (after ops).store.commits.length ∧ j ≤ ops.length ∧
+      R ((Wal.encLog cfg H (Wal.buildLog cfg H p chain lsn pf pc
+            ((after ops).store.commits.map enc))).take m)
+        = .ok (d, { txs := Wal.recoveredOf (Wal.buildLog cfg H p chain lsn pf pc
+                      (((after ops).store.commits.take k).map enc)),
+                    tail := if m = (Wal.encLog cfg H (Wal.buildLog cfg H p chain lsn pf pc
+                                  (((after ops).store.commits.take k).map enc))).length
+                            then .clean
+                            else Wal.tailOf mode (Wal.lastLsnOf (Wal.buildLog cfg H p chain lsn pf pc
+                                  (((after ops).store.commits.take k).map enc))) }) ∧
+      (after (ops.take j)).store.commits = (after ops).store.commits.take k ∧
+      recoveredFrom ((after ops).store.commits.take k) = .ok c ∧ c.ready = true ∧
+      observe ((after ops).store.commits.take k) = .ok c.index ∧
+      ((after (ops.take j)).coord.ready = true → c = (after (ops.take j)).coord) :=
+  ExtAct.crash_any_byte_cut ops enc cfg H p chain lsn pf pc mode R hR m hm
+
+/-- **crash_any_byte.** The previous theorem with its hypothesis discharged by C10's
+    `recover_prefix_built`: for C10's model of `recover_wal_segment_bytes`, every 32-byte hash `H`,
+    every well-formed writer configuration and every translation `enc` into well-formed writer specs. -/
+theorem crash_any_byte (ops : List Op) (enc : Tx → Wal.TxSpec)
+    (cfg : Wal.Cfg) (H : Wal.HashFn) (h32 : Wal.Hash32 H) (p : Wal.BuildParams) (hp : Wal.ParamsOK cfg p)
+    (chain : Bool) (lsn : Nat) (pf pc : Bytes) (mode : Wal.Mode)
+    (hpf : pf.length = 32) (hpc : pc.length = 32) (henc : ∀ tx, Wal.SpecOK cfg (enc tx))
+    (hlsn : lsn + Wal.totalRecords ((after ops).store.commits.map enc) ≤ 2 ^ 64)
+    (m : Nat)
+    (hm : m ≤ (Wal.encLog cfg H
+      (Wal.buildLog cfg H p chain lsn pf pc ((after ops).store.commits.map enc))).length) :
+    ∃ k d j c, k ≤ (after ops).store.commits.length ∧ j ≤ ops.length ∧
+      Wal.recoverSegmentBytesT cfg H p.segmentId ((Wal.encLog cfg H (Wal.buildLog cfg H p chain lsn pf pc
+            ((after ops).store.commits.map enc))).take m) mode
+        = .ok (d, { txs := Wal.recoveredOf (Wal.buildLog cfg H p chain lsn pf pc
+                      (((after ops).store.commits.take k).map enc)),
+                    tail := if m = (Wal.encLog cfg H (Wal.buildLog cfg H p chain lsn pf pc
+                                  (((after ops).store.commits.take k).map enc))).length
+                            then .clean
+                            else Wal.tailOf mode (Wal.lastLsnOf (Wal.buildLog cfg H p chain lsn pf pc
+                                  (((after ops).store.commits.take k).map enc))) }) ∧
+      (after (ops.take j)).store.commits = (after ops).store.commits.take k ∧
+      recoveredFrom ((after ops).store.commits.take k) = .ok c ∧ c.ready = true ∧
+      observe ((after ops).store.commits.take k) = .ok c.index ∧
+      ((after (ops.take j)).coord.ready = true → c = (after (ops.take j)).coord) :=
+  ExtAct.crash_any_byte_cut ops enc cfg H p chain lsn pf pc mode
+    (fun b => Wal.recoverSegmentBytesT cfg H p.segmentId b mode)
+    (fun m hm => C10.recover_prefix_built cfg H h32 p hp chain lsn pf pc _ mode hpf hpc
+      (fun s hs => by
+        obtain ⟨tx, _, rfl⟩ := List.mem_map.mp hs
+        exact henc tx) hlsn m hm) m hm
+
+-- non-vacuity: a translation into well-formed one-record writer specs (C10's toy configuration)
+example : ∀ tx : Tx, Wal.SpecOK C10.toyCfg
+    ((fun _ => ⟨C10.z32, 1, [(⟨1, [65]⟩, [7, 7])], C10.z32⟩ : Tx → Wal.TxSpec) tx) := by
+  intro _
+  constructor <;> simp [C10.toyCfg, C10.z32, Wal.RecOK, Wal.u32Max]
+
+-- the request ids of the sample history are 32-byte values
+example : OpsBounded [Op.request reqA] := by
+  intro op hop r hr
+  simp only [List.mem_singleton] at hop
+  subst hop
+  cases hr
+  show 5 < 2 ^ 256
+  exact Nat.lt_of_lt_of_le (by decide : 5 < 2 ^ 3) (Nat.pow_le_pow_right (by decide) (by decide))
 
 def happy : List Op :=
   [.request reqA, .claim reqA authA 7 0 13, .settle reqA claimA 1 candA, .retry candA]
